@@ -44,6 +44,10 @@ FAMILIES = {
     "empty_group_star": ("(a*)*", lambda n: "ab" * min(n, 20), False),
     "empty_anchor": ("$|^", lambda n: "a\nb" * min(n, 10), False),
     "caret_only": ("^", lambda n: "a\nb\n" * min(n, 10), False),
+    # subjects with characters outside the BMP: code-point and UTF-16 indexes differ
+    "astral_boundary": ("\\b|$", lambda n: "\U0001F600\U0001F600 a\U0001F600" * min(n, 4), False),
+    "astral_dot_star": ("(.*)*\U0001F601", lambda n: "\U0001F600" * min(n, 20), False),
+    "astral_class": ("[\U0001F600a]+b", lambda n: "\U0001F600a" * min(n, 12), False),
     "caret_dollar_ml": ("^b$|^$", lambda n: "a\nb\n" * min(n, 10), False),
     "empty_boundary": ("\\b", lambda n: "ab cd " * min(n, 8), False),
     "empty_lookahead": ("(?=a)", lambda n: "a" * min(n, 30), True),
@@ -70,6 +74,8 @@ APIS = {
     # a RegExp reused on a shorter subject: lastIndex points beyond the end (or is negative / fractional)
     "lastindex_beyond_test": "(function(){ var r = %(RY)s; r.lastIndex = S.length + 3; return [r.test('ab'), r.test(''), r.lastIndex]; })()",
     "lastindex_beyond_exec": "(function(){ var r = %(RY)s; r.lastIndex = S.length + 7; var m = r.exec('x\\ny'); return [m === null, r.lastIndex]; })()",
+    "lastindex_sweep": "(function(){ var r = %(RY)s, k = 0; for (var q = 0; q <= 2 * S.length + 3; q++) { r.lastIndex = q; r.test(S); r.lastIndex = q; r.exec(S); k++; } return k > 0; })()",
+    "exec_then_test": "(function(){ var r = %(RY)s, k = 0; while (k++ < 12) { r.exec(S); r.test(S); } return k; })()",
     "lastindex_odd_values": "(function(){ var r = %(RY)s, out = []; var vs = [-1, 2.5, 1e9, S.length, S.length + 1]; for (var q = 0; q < vs.length; q++) { r.lastIndex = vs[q]; out.push(r.test(S)); } return out.length; })()",
     "split_limit_g": "S.split(%(RG)s, 1)",
     "replace_dollar": "S.replace(%(RG)s, '[$&$1]')",
@@ -84,7 +90,7 @@ BUILDS = ("literal", "ctor", "setup_literal", "setup_ctor")   # setup_*: made by
 def render(cell):
     pat, sb, _ = FAMILIES[cell["family"]]
     subj = sb(cell["n"])
-    pj = json.dumps(pat)
+    pj = json.dumps(pat, ensure_ascii=False)
     fl = cell.get("flags", "")
     if cell["build"] == "literal":
         R, RG = "/%s/%s" % (pat, fl), "/%s/g%s" % (pat, fl)
@@ -99,7 +105,7 @@ def render(cell):
     body = "var r0 = %s;" % call
     if wrap == "try":
         body = "var r0; try{ r0 = %s; }catch(e){ p('c'); r0 = 'caught:' + e.name; }" % call
-    return "var S=%s;\n%s\n\"done\";" % (json.dumps(subj), body)
+    return "var S=%s;\n%s\n\"done\";" % (json.dumps(subj, ensure_ascii=False), body)
 
 
 def setup_src(cell):
@@ -109,7 +115,7 @@ def setup_src(cell):
     fl = cell.get("flags", "")
     if cell["build"] == "setup_literal":
         return "var rxs=/%s/%s, rxsg=/%s/g%s; 'setup';" % (pat, fl, pat, fl)
-    return "var rxs=new RegExp(%s,'%s'), rxsg=new RegExp(%s,'g%s'); 'setup';" % (json.dumps(pat), fl, json.dumps(pat), fl)
+    return "var rxs=new RegExp(%s,'%s'), rxsg=new RegExp(%s,'g%s'); 'setup';" % (json.dumps(pat, ensure_ascii=False), fl, json.dumps(pat, ensure_ascii=False), fl)
 
 
 def n_cases(tier):
@@ -146,7 +152,13 @@ def gen_case(seed, i, tier="quick"):
         stack = rng.choice((100, 1000, 10000))
     poll = rng.choice((1, 7, 100))
     cell = {"family": fam, "api": api, "build": rng.choice(BUILDS), "n": n, "wrap": rng.choice(("none", "none", "try")),
-            "flags": rng.choice(("", "", "", "y", "y", "i", "m", "s", "iy", "my"))}
+            "flags": rng.choice(("", "", "", "y", "y", "i", "m", "s", "iy", "my", "u", "uy", "muy", "iu"))}
+    if fam.startswith("astral") or (fam.startswith("empty_") and rng.random() < 0.3):
+        # positions matter here: sweep lastIndex, alternate exec/test, mostly with the u flag
+        if rng.random() < 0.7:
+            cell["api"] = rng.choice(("lastindex_sweep", "exec_then_test", "lastindex_beyond_test", "lastindex_odd_values", "match_g", "split"))
+        if rng.random() < 0.7:
+            cell["flags"] = rng.choice(("u", "uy", "muy", "iu", "gu"))
     timed = rng.random() < 0.5
     tick = 10 ** rng.uniform(-6, -4)
     case = {"property": PROPERTY, "seed": seed, "index": i, "cell": cell,
